@@ -18,7 +18,12 @@ from ..core.refsem import compile_term, free_symbols, value_to_const
 from ..core.termgen import sort_values
 
 BEHAVIOURS = ("first", "last", "unknown", "raise", "exit")
-ANSWERING = ("first", "last")
+# further member behaviours used by dedicated configurations:
+#   raise-init  the member cannot even be constructed (the executable rejects the logic, ...)
+#   raise-add   the member refuses the formula when it is asserted
+#   raise-on-c  answers (first model) unless the symbol c occurs in its assertions, then it raises
+EXTRA_BEHAVIOURS = ("raise-init", "raise-add", "raise-on-c")
+ANSWERING = ("first", "last", "raise-on-c")
 
 
 class _Opt(SolverOptions):
@@ -35,10 +40,14 @@ class MemberSolver(Solver):
 
     def __init__(self, environment, logic, **options):
         Solver.__init__(self, environment, logic, **options)
+        if self.BEHAVIOUR == "raise-init":
+            raise RuntimeError("member cannot be started")
         self.fs = []
         self.model = None
 
     def add_assertion(self, formula, named=None):
+        if self.BEHAVIOUR == "raise-add":
+            raise RuntimeError("member refuses the formula")
         self.fs.append(formula)
 
     def solve(self, assumptions=None):
@@ -47,6 +56,10 @@ class MemberSolver(Solver):
             # one solver registered once, used several times with different options (the documented
             # multi-seed portfolio): the behaviour is selected by the random_seed option
             b = BEHAVIOURS[self.options.random_seed]
+        if b == "raise-on-c":
+            if any("c" in free_symbols(f) for f in self.fs):
+                raise RuntimeError("member failed")
+            b = "first"
         if b == "raise":
             raise RuntimeError("member failed")
         if b == "unknown":
@@ -92,6 +105,8 @@ def member_class(beh):
 
 
 SCRIPTS = ("solve", "solve+model", "solve+value", "solve-push-solve", "is_sat", "solve-twice", "is_sat-add-solve")
+# scripts with their own configurations (see configs): assumptions; a failing second query followed by get_model
+EXTRA_SCRIPTS = ("solve-assume", "solve-failsolve-model")
 
 
 def make_body(env, names, script, exit_on_exception, unsat):
@@ -118,6 +133,36 @@ def make_body(env, names, script, exit_on_exception, unsat):
                 p.add_assertion(m.And(m.Not(a), m.Not(b)))
                 obs["verdict"] = p.solve()
                 obs["n_assertions"] = len(p.assertions)
+                return obs
+            if script == "solve-assume":
+                # the query is assertions + assumptions; the assumptions do not persist
+                obs = {"verdict": p.solve([m.Not(a), m.Not(b)])}
+                obs["verdict2"] = p.solve()
+                obs["verdict3"] = p.solve([a])
+                if obs["verdict3"]:
+                    model = p.get_model()
+                    val = {"a": model.get_py_value(a), "b": model.get_py_value(b)}
+                    obs["model3_ok"] = bool(holds(m.And(base, a), val))
+                return obs
+            if script == "solve-failsolve-model":
+                # a successful query, then one on which every raise-on-c member fails, then get_model:
+                # there is no model of the failed query - an error, not a block and not the old model
+                obs = {"verdict": p.solve()}
+                p.add_assertion(m.Or(m.Symbol("c"), a))
+                try:
+                    obs["verdict2"] = p.solve()
+                except sched.Deadlock:
+                    raise
+                except Exception:
+                    obs["verdict2"] = "raised"
+                try:
+                    model = p.get_model()
+                    val = {"a": model.get_py_value(a), "b": model.get_py_value(b), "c": model.get_py_value(m.Symbol("c"))}
+                    obs["model"] = "ok" if holds(m.And(base, m.Or(m.Symbol("c"), a)), val) else "wrong"
+                except sched.Deadlock:
+                    raise
+                except Exception:
+                    obs["model"] = "raised"
                 return obs
             obs = {"verdict": p.solve()}
             if obs["verdict"] and script == "solve+model":
@@ -160,8 +205,17 @@ def make_body(env, names, script, exit_on_exception, unsat):
     return body
 
 
-def expected(script, unsat):
+def expected(script, unsat, behs=()):
     sat = not unsat
+    if script == "solve-assume":
+        e = {"verdict": False, "verdict2": sat, "verdict3": sat}
+        if sat:
+            e["model3_ok"] = True
+        return e
+    if script == "solve-failsolve-model":
+        if all(b == "raise-on-c" for b in behs):
+            return {"verdict": True, "verdict2": "raised", "model": "raised"}
+        return {"verdict": True, "verdict2": True, "model": "ok"}
     if script == "is_sat-add-solve":
         return {"query": sat, "verdict": False, "n_assertions": 2}
     e = {"verdict": sat}
@@ -203,8 +257,8 @@ def run_config(args):
         names = member_names(env, behs, same_solver)
         body = make_body(env, names, script, eoe, unsat)
         some_answer = any(bh in ANSWERING for bh in behs)
-        some_error = any(bh in ("raise", "unknown") for bh in behs)
-        want = expected(script, unsat)
+        some_error = any(bh in ("raise", "unknown", "raise-init", "raise-add") for bh in behs)
+        want = expected(script, unsat, behs)
         cfg = {"members": list(behs), "script": script, "exit_on_exception": eoe, "unsat": unsat,
                "same_solver": bool(same_solver)}
         cls = ("all-fail" if not some_answer else "some-fail" if len(set(behs) - set(ANSWERING)) else "all-answer")
@@ -281,6 +335,18 @@ def configs(ctx):
     for behs in itertools.product(BEHAVIOURS, repeat=2):
         for script in ("solve", "solve+model"):
             out.append((behs, script, False, False, None, ctx.seed, True))
+    # members that fail before their solve starts (construction, assertion), alone and next to others
+    for behs in itertools.product(("first", "raise-init", "raise-add", "raise"), repeat=2):
+        if any(b in ("raise-init", "raise-add") for b in behs):
+            for eoe in (False, True):
+                out.append((behs, "solve+model", eoe, False, None, ctx.seed))
+    # assumptions
+    for behs in itertools.product(("first", "last", "raise"), repeat=2):
+        for unsat in (False, True):
+            out.append((behs, "solve-assume", False, unsat, 1 if q else 2, ctx.seed))
+    # a query on which every member fails, after a successful one, then get_model
+    for behs in itertools.product(("first", "raise-on-c"), repeat=2):
+        out.append((behs, "solve-failsolve-model", False, False, 1 if q else 2, ctx.seed))
     if q:
         # three members under a preemption bound of 2, the most race-prone script
         for behs in itertools.product(("first", "last", "raise", "exit"), repeat=3):
@@ -334,7 +400,7 @@ def replay(rec):
         kind, obs = o1[0]
         some_answer = any(b in ANSWERING for b in cfg["members"])
         some_error = any(b in ("raise", "unknown") for b in cfg["members"])
-        want = expected(cfg["script"], cfg["unsat"])
+        want = expected(cfg["script"], cfg["unsat"], cfg["members"])
         if kind == "DEADLOCK":
             return False, "schedule %s of %s: the call blocks forever" % (case["choices"], cfg)
         if some_answer and kind == "exc" and not (cfg["exit_on_exception"] and some_error):
